@@ -444,6 +444,50 @@ func (c *Choices) Next(n *Net) bool {
 	return true
 }
 
+// HoldSome: FIFO, except that the deliveries whose creation numbers are listed are held back until
+// nothing else can be delivered (one message arbitrarily late, overtaken by whole rounds of later traffic).
+type HoldSome struct {
+	IDs  []int
+	Held int // how many listed deliveries were actually overtaken by something
+	seen map[int]bool
+}
+
+func (h *HoldSome) held(d *Delivery) bool {
+	for _, id := range h.IDs {
+		if d.ID == id {
+			return true
+		}
+	}
+	return false
+}
+
+func (h *HoldSome) Next(n *Net) bool {
+	if u := n.Unstarted(); len(u) > 0 {
+		n.Start(u[0])
+		return true
+	}
+	for k, d := range n.Pending {
+		if !h.held(d) {
+			for _, e := range n.Pending[:k] {
+				if h.held(e) && !h.seen[e.ID] {
+					if h.seen == nil {
+						h.seen = map[int]bool{}
+					}
+					h.seen[e.ID] = true
+					h.Held++
+				}
+			}
+			n.Deliver(k)
+			return true
+		}
+	}
+	if len(n.Pending) > 0 {
+		n.Deliver(0)
+		return true
+	}
+	return false
+}
+
 // Run drives the net with a scheduler until it has nothing left to do (or maxSteps is reached).
 func (n *Net) Run(s Scheduler, maxSteps int) {
 	for i := 0; i < maxSteps; i++ {
